@@ -17,3 +17,4 @@ pub mod peerloss;
 pub mod rrslow;
 pub mod rereg;
 pub mod hostile_server;
+pub mod chaos;
